@@ -232,6 +232,58 @@ func checkC16(c *Check) {
 	checkNoSharedState(c, "6/no-shared-state", func(path string) bool {
 		return strings.HasSuffix(path, "/ptracer") || strings.HasSuffix(path, "/pkg/forkexec") || strings.HasSuffix(path, "/runner/ptrace")
 	}, 3)
+
+	// during synchronisation the child stays blocked until the callback returned: the acknowledge is written only
+	// after it (C07.2), so a controller that dies inside the callback leaves a child that sees end-of-file
+	importObs(c, "C07", "C07.2/parent-sync", "7/blocked-until-ack", func(o Obligation) bool { return strings.Contains(o.Key, "ack") || strings.Contains(o.Key, "channel-write") })
+	c.Expect("7/blocked-until-ack", 3)
+
+	// every way out of the container's receive loop closes 'done' (end-of-file included): the init exits when the
+	// controller's end of the socket goes away
+	for _, fk := range []string{"containerServer.recvLoop"} {
+		fn := p.Func("container", fk)
+		if fn == nil {
+			c.Undecided("8/init-exits", "container."+fk, "-", "function not found")
+			continue
+		}
+		var recv ssa.CallInstruction
+		for _, ci := range callInstrs(fn) {
+			if n, _ := calleeOf(ci); strings.HasSuffix(n, "container.socket).RecvMsg") {
+				recv = ci
+			}
+		}
+		if recv == nil {
+			c.Fail("8/init-exits", "container.recvLoop:recv", p.Pos(fn.Pos()), "receive call not found")
+			continue
+		}
+		leaves, trail := pathQuery{fn: fn, from: recv, target: isReturn, stop: func(in ssa.Instruction) bool {
+			ci, ok := in.(ssa.CallInstruction)
+			if !ok {
+				return false
+			}
+			_, callee := calleeOf(ci)
+			return callee != nil && closesDoneOnce(callee)
+		}}.find()
+		c.Cond(!leaves, "8/init-exits", "container.recvLoop:every-exit-closes-done", p.Pos(recv.Pos()), "the receive loop ends only through the function that closes 'done'",
+			"the container's receive loop can end without closing 'done' ("+p.trail(trail)+"): the serving goroutine keeps waiting and the init outlives its controller")
+	}
+	// the init keeps the credentials it was started with: the kernel clears the parent-death signal of a thread that
+	// changes any of its uids/gids (setfsuid included)
+	var credCalls []string
+	for _, fn := range p.PkgFuncs("container") {
+		for _, ci := range callInstrs(fn) {
+			n, _ := calleeOf(ci)
+			short := n[strings.LastIndex(n, ".")+1:]
+			switch short {
+			case "Setfsuid", "Setfsgid", "Setuid", "Setgid", "Setreuid", "Setregid", "Setresuid", "Setresgid", "Setgroups":
+				if strings.HasPrefix(n, "syscall.") || strings.HasPrefix(n, "golang.org/x/sys/unix.") {
+					credCalls = append(credCalls, short+"@"+p.Pos(ci.Pos()))
+				}
+			}
+		}
+	}
+	c.Cond(len(credCalls) == 0, "8/init-exits", "container:no-credential-change-in-init", "container/", "the container init never changes its own credentials", "the container init changes its credentials ("+strings.Join(credCalls, ", ")+"): the kernel then clears the parent-death signal set for it, and it no longer dies with its controller")
+	c.Expect("8/init-exits", 2)
 }
 
 // closesDoneOnce: the function closes a channel field inside a sync.Once.Do closure.
